@@ -49,7 +49,7 @@ manifest = {
         "enable": "RUSTFLAGS='--cfg iroh_verif --check-cfg cfg(iroh_verif)' (set in /verif/harness/.cargo/config.toml; the harness crates depend on /repo's crates by path)",
         "baseline_off_cmd": "cd /repo && cargo nextest run --workspace --no-fail-fast --test-threads 8 --offline || cargo test --workspace --no-fail-fast --offline",
         "source_commits": hooks,
-        "add_only": True,
+        "add_only": False,
     },
     "engines": [{
         "name": "lean4+rust-diff", "path": "/verif/check",
@@ -60,7 +60,7 @@ manifest = {
     "checks": checks,
     "not_applicable": [{"property_id": p["id"], "reason": na_reasons.get(p["id"], na_reasons["default"])}
                        for p in props if p["id"] not in specs],
-    "notes": "See DESIGN.md. One entry point: ./check <ID> --tier quick|thorough [--replay file]. known_findings.json lists recorded defects.",
+    "notes": "Hook commits are additive except for a few lines whose attributes were changed so that cfg(iroh_verif) can see them (e.g. `cfg(test)` → `cfg(any(test, iroh_verif))` on synthetic constructors, a cfg-gated `use`, later edits of earlier hook lines); with the guard off the crates compile to the same code as the fix-only tree and the 218 baseline tests pass. See DESIGN.md. One entry point: ./check <ID> --tier quick|thorough [--replay file]. known_findings.json lists recorded defects.",
 }
 json.dump(manifest, open(os.path.join(ROOT, "MANIFEST.json"), "w"), indent=1)
 print(f"{len(checks)} claimed, {len(manifest['not_applicable'])} not claimed")
